@@ -16,7 +16,7 @@ CHECKS = {
  "C02": dict(
     technique="published definitions as exact relations in TLA+ (ColourMath.tla, reference constants with citations, 104-bit fixed point, cube instead of cube root, cross-multiplication, series only for sine/cosine); TLC self-check of the reference (MC_ColourMath); TLC trace validation of every recorded conversion along a hand-written edge (TraceMath.tla)",
     category="model_checking",
-    text="30 directed hand-written edges - linear sRGB<->XYZ (matrix derived in the spec from the IEC primaries and D65), XYZ<->L*a*b*, L*u*v*, xyY, Oklab (Ottosson's M1/M2 and the direct linear-sRGB matrices; CSS Color 4's recalculated M1 also accepted), the three polar forms, RGB<->HSV/HSL, HSV<->HSL, HSV<->HWB, Okhsv<->Okhwb, XYZ<->luma - are run on lattices, on points straddling every piecewise threshold (the join of f(t) per channel, L*=8, hue sector edges, RGB ties) and on random points for f32 and f64; TLC measures on the exact recorded values how many bits input and output agree with the defining equation and requires 44 bits in f64 (17 in f32) for the exact formulas, 19 bits across palette's 7-digit RGB matrices and 18 for Oklab (limits of the publications).",
+    text="34 directed hand-written edges - XYZ<->LMS (von Kries and Bradford cone matrices), linear sRGB<->XYZ (matrix derived in the spec from the IEC primaries and D65), XYZ<->L*a*b*, L*u*v*, xyY, Oklab (Ottosson's M1/M2 and the direct linear-sRGB matrices; CSS Color 4's recalculated M1 also accepted), the three polar forms, RGB<->HSV/HSL, HSV<->HSL, HSV<->HWB, Okhsv<->Okhwb, XYZ<->luma - are run on lattices, on points straddling every piecewise threshold (the join of f(t) per channel, L*=8, hue sector edges, RGB ties) and on random points for f32 and f64; TLC measures on the exact recorded values how many bits input and output agree with the defining equation and requires 44 bits in f64 (17 in f32) for the exact formulas, 19 bits across palette's 7-digit RGB matrices and 18 for Oklab (limits of the publications).",
     ref="DESIGN.md section 4 C02 and section 5",
     note=TRUST + "; reference constants and formulas in spec/ColourMath.tla; thresholds in TraceMath.tla (calibrated, >= 16x margin); not decided here: Oklab<->Okhsl/Okhsv against Ottosson's numerical procedure, Lchuv<->HSLuv bounds, transfer curves (decided by C05's Transfer relation), other RGB standards and white points than sRGB/D65, CAM16 (C16)"),
  "C03": dict(
@@ -46,7 +46,7 @@ CHECKS = {
  "C07": dict(
     technique="invariant `every call on a colour of the statement's domain returns finite components and does not panic` judged by TLC trace validation (TraceFinite.tla decides domain membership from the documented bounds in Types.tla with exact arithmetic) over the boundary lattice x API surface",
     category="model_checking",
-    text="Every ordered conversion pair of 19 typed nodes (f32 and f64, with and without alpha), the clamp family, every operator form of the C10 driver (196 operator/type pairs) and every blend / compositing / BlendWith call of the C08 driver are run on the boundary lattice of each space: every component at min, max, zero, a billionth of the range inside either bound and at quarter points, hues at every sector edge and at +-180/360. TLC decides from the documented bounds whether the recorded input is in the statement's domain (on a bound, zero, or at least 1e-9 of the range away) and then requires a finite, panic-free result.",
+    text="Every ordered conversion pair of 21 typed nodes (the two LMS cone spaces included) (f32 and f64, with and without alpha), the clamp family, every operator form of the C10 driver (196 operator/type pairs) and every blend / compositing / BlendWith call of the C08 driver are run on the boundary lattice of each space: every component at min, max, zero, a billionth of the range inside either bound and at quarter points, hues at every sector edge and at +-180/360. TLC decides from the documented bounds whether the recorded input is in the statement's domain (on a bound, zero, or at least 1e-9 of the range away) and then requires a finite, panic-free result.",
     ref="DESIGN.md section 4 C07",
     note=TRUST + "; documented bounds table in spec/Types.tla; component-wise division by a colour or scalar with a zero component is not judged (no finite value exists); colour differences and CAM16 are judged for finiteness by their own checks' relations (a non-finite result cannot satisfy them), not re-run here"),
  "C08": dict(
